@@ -59,6 +59,8 @@ func (l *loadIterator) NextBatch(maxSize int) (batch IteratorBatch, err error) {
 		return
 	}
 	l.isExhausted = true
+	// heads announced with a batch are the heads of everything processed so far, not of this batch alone
+	batch.Heads = append(batch.Heads, l.lastHeads...)
 	err = l.storage.GetAfterOrder(context.Background(), l.orderId, func(ctx context.Context, c StorageChange) (shouldContinue bool, err error) {
 		l.orderId = c.OrderId
 		rawEntry, ok := l.cache[c.Id]
